@@ -305,6 +305,9 @@ def find_blocked_reactions(
                 )
         if reaction_list is None:
             reaction_list = model.reactions
+        else:
+            # accept identifiers as well as reaction objects
+            reaction_list = model.reactions.get_by_any(list(reaction_list))
         # Limit the search space to reactions which have zero flux. If the
         # reactions already carry flux in this solution,
         # then they cannot be blocked.
@@ -314,7 +317,11 @@ def find_blocked_reactions(
             solution.fluxes.abs() < zero_cutoff
         ].index.tolist()
         # Run FVA to find reactions where both the minimal and maximal flux
-        # are zero (below the cut off).
+        # are zero (below the cut off). Whether a reaction is blocked does not
+        # depend on the objective: drop it, otherwise FVA would only look at
+        # flux distributions with a non-negative (non-positive when
+        # minimizing) objective value.
+        model.objective = Zero
         flux_span = flux_variability_analysis(
             model,
             fraction_of_optimum=0.0,
